@@ -15,7 +15,9 @@ from .. import compare, expr as E, model, pipeline, routinegen as G
 from ..real import evaluate, sympy_backend as B, walk
 
 LEVEL = "proof"
-NAMES = ["x", "y", "N", "a.b", "a.b.c", "#p", "a.#q", "lambda", "in", "lambda_x", "in_0", "x_in", "_u", "b.lambda"]
+# every kind of identifier the language has, incl. reserved words in EVERY position of a dotted / port name
+NAMES = ["x", "y", "N", "a.b", "a.b.c", "#p", "a.#q", "lambda", "in", "lambda_x", "in_0", "x_in", "_u", "b.lambda",
+         "#in", "#lambda", "a.#in", "a.b.#lambda", "in.#out", "lambda.#out", "top.in.#out", "a.in.b", "in.x", "a.lambda.#p", "#p.lambda"]
 
 
 def gen(seed, extra):
